@@ -100,6 +100,16 @@ func (n *LocalNode) VerifClearPredecessor() {
 	n.predecessorMu.Unlock()
 }
 
+// VerifSuccessorID returns the id of the immediate successor right now (false: none).
+// Only to be called where the caller holds none of the node's locks.
+func (n *LocalNode) VerifSuccessorID() (uint64, bool) {
+	s := n.getSuccessor()
+	if s == nil {
+		return 0, false
+	}
+	return s.ID(), true
+}
+
 // VerifNodeState exposes the lifecycle state machine on its own.
 type VerifNodeState struct{ s *nodeState }
 
